@@ -83,7 +83,7 @@ def make_case(rng, i, tier):
         # start): the carried state dictionary is the only memory of the signature in force
         for t in pc["tracks"]:
             t["pad"] = pc["total"]
-    return {"cfg": cfg, "piece": pc, "route": route, "partition_seed": rng.randrange(10 ** 6)}
+    return {"cfg": cfg, "piece": pc, "route": route, "partition_seed": rng.randrange(10 ** 6), "share_bars": i % 3 == 0 and route != "raw"}
 
 
 def _detok_obs(tok, toks):
@@ -132,7 +132,12 @@ def run(case, ctx):
         nb = len(tb[0])
         lens = [orc.peek(b.sequence)[2] for b in tb[0]]
         sigs = [(b.time_signature_numerator, b.time_signature_denominator) for b in tb[0]]
-        whole = [Bar.to_sequence([b.copy() for b in trk]) for trk in tb]
+        # a third of the cases joins the SAME Bar objects again and again (whole piece, then every call group of every
+        # partition), as a user holding one list of bars does; the others join copies
+        share = case.get("share_bars", False)
+        if share:
+            LOG.n("c03.same_bar_objects_joined_repeatedly")
+        whole = [Bar.to_sequence([b if share else b.copy() for b in trk]) for trk in tb]
 
     def chunk_empty(a, b):
         if raw:
@@ -164,7 +169,7 @@ def run(case, ctx):
                 LOG.n("c03.observed.raw_split_piece_count_mismatch")
                 continue
         for gi, (a, b) in enumerate(groups):
-            chunk = [p[gi] for p in pieces] if raw else [Bar.to_sequence([bb.copy() for bb in trk[a:b]]) for trk in tb]
+            chunk = [p[gi] for p in pieces] if raw else [Bar.to_sequence([bb if share else bb.copy() for bb in trk[a:b]]) for trk in tb]
             try:
                 toks += tok.tokenise(chunk, state_dict=sd)
             except Exception as e:
